@@ -239,6 +239,36 @@ def run(ctx):
             if got != want:
                 ctx.violation("oracle", f"`{src}` with a={proto.show(pool[i])}, b={proto.show(pool[j])} gives {got}, expected {want}",
                               {"op": "program", "src": src, "a": proto.to_sx(pool[i]), "b": proto.to_sx(pool[j])})
+    # ---- a value that was used as a probe (hashed, compared) and is then CHANGED in place answers like its new value from then on:
+    # membership, map lookup, ==, find — against fresh literals of the old and of the new value (the stored elements are never touched)
+    hist = [("[1, 2]", "p_[0] = 5", "[5, 2]"), ("[1, 2]", "p_[1] += 1", "[1, 3]"), ("[1, 2]", "append(p_, 3)", "[1, 2, 3]"), ("[1, 2]", "delete_at(p_, 0)", "[2]"),
+            ("[1, 2]", "insert_at(p_, 0, 0)", "[0, 1, 2]"), ("[[1], 2]", "p_[0][0] = 9", "[[9], 2]"), ("[[1], 2]", "append(p_[0], 9)", "[[1, 9], 2]"),
+            ("[<<<'k' => 1>>>]", "p_[0]['k'] = 2", "[<<<'k' => 2>>>]"), ("[<<1>>]", "append(p_[0], 2)", "[<<1, 2>>]"), ("<<1, 2>>", "append(p_, 3)", "<<1, 2, 3>>"),
+            ("<<1, 2>>", "remove(p_, 2)", "<<1>>"), ("<<<'a' => 1>>>", "p_['a'] = 2", "<<<'a' => 2>>>"), ("<<<'a' => 1>>>", "p_['b'] = 2", "<<<'a' => 1, 'b' => 2>>>"),
+            ("<<<'a' => [1]>>>", "append(p_['a'], 2)", "<<<'a' => [1, 2]>>>"), ("[1.0, 2]", "p_[0] = 1", "[1, 2]"), ("[1, 2]", "p_[0] = 5; p_[0] = 1", "[1, 2]")]
+    probes = ["p_ in s_", "p_ in t_", "m_[p_, 'none']", "p_ == o_", "p_ == n_", "find([n_, o_], p_)", "<<p_>> == <<n_>>", "length(<<p_, n_>>)", "p_ in [o_]", "p_ in [n_]"]
+    for make, change, newlit in hist:
+        same = make == newlit or (make, newlit) == ("[1.0, 2]", "[1, 2]")      # equal values: nothing may change
+        pre = (f"def p_ = {make}; def o_ = {make}; def n_ = {newlit}; def s_ = << {make}, 'x' >>; def t_ = << {newlit}, 'y' >>; "
+               f"def m_ = <<<>>>; m_[{make}] = 'old'; m_[{newlit}] = 'new'; ")
+        body = "[" + ", ".join(probes) + "]"
+        src = pre + f"def before_ = {body}; {change}; def after_ = {body}; [before_, after_]"
+        if same:
+            want_b = want_a = "[TRUE, TRUE, 'new', TRUE, TRUE, 0, TRUE, 1, TRUE, TRUE]"
+        else:
+            want_b = "[TRUE, FALSE, 'old', TRUE, FALSE, 1, FALSE, 2, TRUE, FALSE]"
+            want_a = "[FALSE, TRUE, 'new', FALSE, TRUE, 0, TRUE, 1, FALSE, TRUE]"
+        want = f"[{want_b}, {want_a}]"
+        try:
+            with core.time_limit(5):
+                it.environment.map.clear()
+                got = str(it.interpret(src, "c06"))
+        except (Exception, core.Timeout) as e:   # noqa
+            got = "EXC " + type(e).__name__ + ": " + str(e)[:80]
+        progs += 1
+        ctx.count("probe_mutation_histories")
+        if got != want:
+            ctx.violation("oracle", f"`{src}` gives {got}, expected {want}", {"op": "program", "src": src, "a": "(null)", "b": "(null)"})
     # ---- ... and on UNEQUAL values: the operators, membership, lookup and de-duplication all say "different";
     # numbers that differ only far behind the point (or beyond 2^53) are the interesting ones
     near = [(('d', 0.1 + 0.2), ('d', 0.3)), (('d', 1.0), ('d', 1.0000000000008)), (('i', 2 ** 53 + 1), ('d', float(2 ** 53))),
